@@ -99,7 +99,8 @@ def r2(chk, lp):
 def r3(chk, loops):
     n = 0
     for lp in loops:
-        if lp.label() not in DOC_LEVEL:
+        # a loop that can meet Event::Eof reads at document level (wherever it lives: the entry point or a helper of it)
+        if lp.label() not in DOC_LEVEL and not any("Eof" in a.kinds for a in lp.arms):
             continue
         n += 1
         for kind in ("Decl",):
